@@ -59,8 +59,10 @@ def strat_alloc(draw, tier, ends_only=False):
                           [m["resources"][r]])) for r in names)
     reservations = []          # {"res", "start", "stop", "loc"}
     per_chip = dict((c, dict((r, []) for r in names)) for c in chips)
-    same_caps = dict((r, len(set(pr.chip_capacity(m, c)[r]
-                                 for c in chips)) == 1) for r in names)
+    # a global reservation can only be a suffix of every chip's range if all
+    # chips (and the machine-wide default) have the same capacity
+    same_caps = dict((r, set(pr.chip_capacity(m, c)[r] for c in chips) ==
+                      {mincap[r]}) for r in names)
     used_chips = draw(st.lists(st.sampled_from(chips), min_size=1,
                                max_size=min(len(chips), 4), unique=True))
     for r in names:
